@@ -264,6 +264,12 @@ func (c *specCtx) eval(x ast.Expr) (sv, error) {
 									s, _ := e.sc.constVal(k.Val(), k.Type())
 									return c.mk(k.Type(), s), nil
 								}
+								if gv, ok := o.(*types.Var); ok {
+									// package-level variable of an imported package (e.g. context.Canceled)
+									key := "G|" + gv.Pkg().Path() + "." + gv.Name()
+									a := &Addr{Kind: ALocal, Key: key, Root: gv.Type(), T: gv.Type()}
+									return c.mk(gv.Type(), e.rootLoad(c.st, a)), nil
+								}
 							}
 						}
 					}
@@ -797,6 +803,9 @@ func (c *specCtx) call(n *ast.CallExpr) (sv, error) {
 		for k, v := range c.vars {
 			cc.vars[k] = v
 		}
+		for k, v := range c.e.ghostVars(c.prevSt) {
+			cc.vars[k] = v
+		}
 		for k, v := range c.prevVar {
 			cc.vars[k] = v
 		}
@@ -957,7 +966,7 @@ func (c *specCtx) call(n *ast.CallExpr) (sv, error) {
 			return sv{}, err
 		}
 		return c.mk(types.Typ[types.UnsafePointer], "(i-tag "+v.S+")"), nil
-	case "sent", "sentval":
+	case "sent", "sentval", "recvd":
 		// ghost record of channel sends performed by the function under verification
 		v, err := c.eval(args[0])
 		if err != nil {
@@ -969,6 +978,9 @@ func (c *specCtx) call(n *ast.CallExpr) (sv, error) {
 		}
 		if id.Name == "sent" {
 			return c.mk(tInt, fmt.Sprintf("(select %s %s)", e.sendCount(c.st), v.S)), nil
+		}
+		if id.Name == "recvd" {
+			return c.mk(tInt, fmt.Sprintf("(select %s %s)", e.recvCount(c.st), v.S)), nil
 		}
 		return c.mk(ct.Elem(), fmt.Sprintf("(select %s %s)", e.sendVals(c.st, ct.Elem()), v.S)), nil
 	case "max", "min":
